@@ -501,7 +501,10 @@ def property_on_impl(case, o):
             q = exact_quad(M, x)
             gauss = 0.5 * d * math.log(tau) - 0.5 * float(q) - 0.5 * d * LN2PI
             scale = max(1.0, abs(0.5 * d * math.log(tau)), abs(0.5 * float(q)), 0.5 * d * LN2PI)
-            if abs(gauss - val) > RTOL * scale:
+            # the published entries are doubles: each carries a rounding of 1 ulp, and in x'Qx these roundings are
+            # multiplied by x_i x_j without cancelling (a field with a large common offset: |x|^2 / |dx|^2 conditioning)
+            cond = sum(abs(M[i][j] * x[i] * x[j]) for i in range(len(x)) for j in range(len(x)))
+            if abs(gauss - val) > RTOL * scale + 4 * 2.3e-16 * cond:
                 v = case["variant"]
                 if v in IGNORED_KEY and abs(float(q) - float(plain_sum(x) * Fraction(tau))) <= 1e-9 * max(1e-300, abs(float(q))):
                     key = IGNORED_KEY[v]      # the published matrix is the one of the UNWEIGHTED field
